@@ -155,8 +155,24 @@ func init() {
 			fr.i.ps.tag = fr.i.concreteString(a[0], "tag")
 			return nil
 		},
+		// verifReplayAs(harness): native replay of violations found from here on runs this harness
+		"verifReplayAs": func(fr *frame, a []value) value {
+			fr.i.ps.replayHarness = a[0].(string)
+			return nil
+		},
+		// verifReplayParam(name, v): parameter handed to the native replay harness
+		"verifReplayParam": func(fr *frame, a []value) value {
+			if fr.i.ps.replayParams == nil {
+				fr.i.ps.replayParams = map[string]int64{}
+			}
+			fr.i.ps.replayParams[a[0].(string)] = fr.i.concreteInt(a[1], "replay parameter")
+			return nil
+		},
 		"verifNote": func(fr *frame, a []value) value {
 			s := ""
+			if itf, ok := a[0].(iface); ok {
+				a = []value{itf.v}
+			}
 			switch x := a[0].(type) {
 			case string:
 				s = x
